@@ -19,6 +19,15 @@ impl DiskWs {
     /// `prefix`: extra path components between the scratch base and the project root
     /// (e.g. "build/x" to place the workspace below a directory named like an ignored one).
     pub fn create(ws: &WorkspaceSpec, prefix: &str, pyproject: Option<&str>) -> std::io::Result<DiskWs> {
+        Self::create_layout(ws, prefix, pyproject, &[], &[])
+    }
+
+    /// `tp_layout[n]` / `plug_layout[n]` select the metadata layout of third-party file n / plugin n:
+    /// tp: 0 dist-info + module target, 1 dist-info + package target, 2 egg-info, 3 `module:attr`,
+    ///     4 several groups and entries; plug: 0 `__editable__.<n>-1.0.pth`, 1 `_<n>.pth`, 2 `<n>.pth`.
+    /// ThirdParty(n >= 10) is an editable install whose source lives OUTSIDE the workspace;
+    /// ThirdParty(20) is pytest's own `_pytest` package.
+    pub fn create_layout(ws: &WorkspaceSpec, prefix: &str, pyproject: Option<&str>, tp_layout: &[u8], plug_layout: &[u8]) -> std::io::Result<DiskWs> {
         let n = COUNTER.fetch_add(1, Ordering::SeqCst);
         let base = format!("/dev/shm/verif-{}-{}", std::process::id(), n);
         let root = if prefix.is_empty() { format!("{}/proj", base) } else { format!("{}/{}/proj", base, prefix) };
@@ -36,14 +45,32 @@ impl DiskWs {
             }
             std::fs::write(&p, render(f).text)?;
             match f.loc.kind {
-                FileKind::ThirdParty(n) => {
-                    let di = format!("{}/tp{}-1.0.dist-info", d.tp_dir, n);
+                FileKind::ThirdParty(20) => {}
+                FileKind::ThirdParty(n) if n >= 10 => {
+                    std::fs::create_dir_all(&d.tp_dir)?;
+                    let outside = format!("{}/outside", d.base);
+                    let di = format!("{}/xplug{}-2.0.dist-info", d.tp_dir, n);
                     std::fs::create_dir_all(&di)?;
-                    std::fs::write(format!("{}/entry_points.txt", di), format!("[console_scripts]\nx = y:z\n\n[pytest11]\ntp{} = tp{}.plugin\n", n, n))?;
+                    std::fs::write(format!("{}/entry_points.txt", di), format!("[pytest11]\nxplug{} = xplug{}\n", n, n))?;
+                    std::fs::write(format!("{}/direct_url.json", di), format!("{{\"url\": \"file://{}\", \"dir_info\": {{\"editable\": true}}}}", outside))?;
+                    std::fs::write(format!("{}/__editable__.xplug{}-2.0.pth", d.tp_dir, n), format!("{}\n", outside))?;
+                }
+                FileKind::ThirdParty(n) => {
+                    let lay = tp_layout.get(n as usize).copied().unwrap_or(0) % 5;
+                    let di = if lay == 2 { format!("{}/tp{}-1.0.egg-info", d.tp_dir, n) } else { format!("{}/tp{}-1.0.dist-info", d.tp_dir, n) };
+                    std::fs::create_dir_all(&di)?;
+                    let ep = match lay {
+                        1 => format!("[pytest11]\ntp{} = tp{}\n", n, n),
+                        3 => format!("[pytest11]\ntp{} = tp{}.plugin:hook\n", n, n),
+                        4 => format!("[console_scripts]\nx = y:z\n\n[pytest11]\n# comment\nbogus = not_there.mod\ntp{} = tp{}.plugin\n\n[other]\na = b\n", n, n),
+                        _ => format!("[console_scripts]\nx = y:z\n\n[pytest11]\ntp{} = tp{}.plugin\n", n, n),
+                    };
+                    std::fs::write(format!("{}/entry_points.txt", di), ep)?;
                     std::fs::write(format!("{}/tp{}/__init__.py", d.tp_dir, n), "")?;
                 }
                 FileKind::Plugin(n) => {
                     std::fs::create_dir_all(&d.tp_dir)?;
+                    let lay = plug_layout.get(n as usize).copied().unwrap_or(0) % 3;
                     let di = format!("{}/plug{}-1.0.dist-info", d.tp_dir, n);
                     std::fs::create_dir_all(&di)?;
                     std::fs::write(format!("{}/entry_points.txt", di), format!("[pytest11]\nplug{} = plug{}\n", n, n))?;
@@ -51,7 +78,12 @@ impl DiskWs {
                         format!("{}/direct_url.json", di),
                         format!("{{\"url\": \"file://{}\", \"dir_info\": {{\"editable\": true}}}}", d.plugin_dir),
                     )?;
-                    std::fs::write(format!("{}/__editable__.plug{}-1.0.pth", d.tp_dir, n), format!("{}\n", d.plugin_dir))?;
+                    let pth = match lay {
+                        0 => format!("__editable__.plug{}-1.0.pth", n),
+                        1 => format!("_plug{}.pth", n),
+                        _ => format!("plug{}.pth", n),
+                    };
+                    std::fs::write(format!("{}/{}", d.tp_dir, pth), format!("# editable\nimport sys\n{}\n", d.plugin_dir))?;
                 }
                 _ => {}
             }
@@ -63,7 +95,11 @@ impl DiskWs {
     }
 
     pub fn path(&self, loc: &FileLoc) -> String {
-        loc.path_under(&self.root, &self.plugin_dir, &self.tp_dir)
+        match loc.kind {
+            FileKind::ThirdParty(20) => format!("{}/_pytest/fixtures.py", self.tp_dir),
+            FileKind::ThirdParty(n) if n >= 10 => format!("{}/outside/xplug{}.py", self.base, n),
+            _ => loc.path_under(&self.root, &self.plugin_dir, &self.tp_dir),
+        }
     }
 }
 
